@@ -18,7 +18,7 @@ META = {
     'property_id': 'C03',
     'technique': 'Lean 4 theorems (induction over arbitrary instruction lists) about a transcription of fixBlock/fixIns/checkJumpBetween/fixOriginFuncToTrampoline built on the EncodeAddress/DecodeAddress/opExpand and jump emitters regenerated from the Go source; differential run of the model against the real relocation code on every function of a test binary and a generated zoo; executed layer through the public API',
     'level': 'proof',
-    'level_text': 'Proof of the relocation arithmetic (theorem C03.reloc_faithful and companions): for every instruction list meeting the stated decoder contract, every origin/placeholder pair less than 2^31-2^21 apart whose PC-relative targets stay encodable, and copied length n <= 2^18, a successful relocation copies whole instructions covering >= 13 bytes, keeps every byte that is not the PC-relative field (opcode modulo the proved short->near map, ModRM, trailing immediates), keeps every absolute target outside the copied prefix, maps the branch-to-entry to the copy, ends in a jump that lands on origin+n, and no instruction of the function branches into (0,n); a failure writes nothing. PARTIAL for stack growth: the no-re-entry clause is proved only under the explicit hypothesis that no instruction outside the copied prefix branches to the entry (false for every Go function with a stack check: known finding F4), and the absolute jump-back form (F5) is excluded by the distance hypothesis.',
+    'level_text': 'Proof of the relocation arithmetic (theorem C03.reloc_faithful and companions): for every instruction list meeting the stated decoder contract, every origin/placeholder pair less than 2^31-2^21 apart whose PC-relative targets stay encodable, and copied length n <= 2^18, a successful relocation copies whole instructions covering >= 13 bytes, keeps every byte that is not the PC-relative field (opcode modulo the proved short->near map, ModRM, trailing immediates), keeps every absolute target outside the copied prefix, maps the branch-to-entry to the copy, ends in a jump that lands on origin+n, and no instruction of the function branches into (0,n); a failure writes nothing. PARTIAL for stack growth: the no-re-entry clause is proved only under the explicit hypothesis that no instruction outside the copied prefix branches to the entry (false for every Go function with a stack check: known finding F4), and the absolute jump-back form (F5) is excluded by the distance hypothesis (relative_of_near derives the relative form from it). Recorded defects kept visible as known findings: F27 whole-function copy writes raw bytes, F28 `00 00` dropped (contract clause WF.opnz), F29 failed re-mock removes the earlier mock, F30 generic functions.',
     'level_note': 'Trusted: Lean kernel (propext, Classical.choice, Quot.sound), tools/gen translator for addr.go/monkey_amd64.go (cross-checked on every evaluation), the hand transcription Model/Reloc.lean (tied to the code by differential execution on the instruction lists goom\'s own decoder produces: all functions of the probe binary x 4-8 placeholder positions + zoo), the decoder contract (property C16; additionally assumed: no instruction whose Opcode field is 0, i.e. the byte pair 00 00, inside the copied prefix — goom skips it), X86Mini semantics of JMP rel32. Not modelled: runtime.morestack / stack copying, unwinding through the placeholder, CreateFuncForCodePtr (executed layer only).',
 }
 
@@ -174,12 +174,18 @@ def zoo_shapes():
     z.append(('call-first', b'\xe8' + le32(-0x4567) + NOP * 9 + RET))
     z.append(('undecodable', bytes.fromhex('55') + bytes.fromhex('0f0b') + bytes.fromhex('d6') + NOP * 12 + RET))
     z.append(('truncated', bytes.fromhex('554889e5') + NOP * 9 + bytes.fromhex('48b8aabb')))
+    # the all-zero encoding `00 00` (ADDB AL,(AX)): x86asm reports Opcode == 0 and fixBlock skips it (finding F28)
+    z.append(('opzero-first', bytes.fromhex('0000') + PUSHBP + MOVBP + SUBSP + NOP * 8 + RET + INT3))
+    z.append(('opzero-mid', PUSHBP + MOVBP + bytes.fromhex('0000') + SUBSP + NOP * 8 + RET + INT3))
+    z.append(('opzero-then-riprel', bytes.fromhex('0000') + bytes.fromhex('488b05') + le32(0x2000) + b'\xe8' + le32(0x100) + NOP * 4 + RET))
+    z.append(('opzero-after-widen', CMPSP + bytes.fromhex('7640') + bytes.fromhex('0000') + b'\xe8' + le32(0x100) + NOP * 6 + RET))
+    z.append(('opzero-beyond-cut', PUSHBP + MOVBP + SUBSP + NOP * 8 + bytes.fromhex('0000') + RET + INT3))
     z.append(('disp-zero', bytes.fromhex('554889e5') + NOP * 7 + bytes.fromhex('7400') + NOP * 3 + RET))
     return z
 
 
 TEMPL = [bytes.fromhex(h) for h in ('55', '4889e5', '4883ec20', '90', '31c0', 'b801000000', '48b81122334455667788', '4889442408', '0f1f4000',
-                                    '488b4810', '4885c0', '48ffc8', '4c8d6c24f8', '660f1f440000')]
+                                    '488b4810', '4885c0', '48ffc8', '4c8d6c24f8', '660f1f440000', '0000')]
 RIPT = [('488b05', b''), ('488d0d', b''), ('803d', b'\x00'), ('48c705', le32(77)), ('c605', b'\x01'), ('48813d', le32(-5)), ('8b05', b''), ('48390d', b'')]
 
 
@@ -299,6 +305,17 @@ def gen_requests(tier, rng):
         for oo, to in ((0, 1024), (2048, 512)):
             reqs.append(f'c03.small {oo} {to} {rng.choice([24, 48, 64, 200, 900, 900])} {f.hex()}')
             meta.append({'kind': 'small', 'lane': 'valid', 'req': reqs[-1]})
+    # functions that end exactly where the next one begins (no INT3 padding): GetFuncSize has to stop at the next prologue,
+    # and a function whose every cut position >= jump length is followed by RET is copied WHOLE (no jump back)
+    exact = [bytes.fromhex('488b0500100000c3'), bytes.fromhex('488b0500100000488b1d00200000c3'),
+             bytes.fromhex('4885c0488b0500100000488b1d00200000c3'), bytes.fromhex('31c0ffc0ffc0ffc0ffc0ffc0ffc0c3'),
+             bytes.fromhex('48c7050010000007000000c3c3'), bytes.fromhex('4885c07440488b0500100000e800010000c3')]
+    for f in smalls[:(150 if tier == 'quick' else 3000)]:
+        exact.append(f.rstrip(b'\xcc'))
+    for f in exact:
+        oo, to = rng.choice([(0, 1024), (2048, 512)])
+        reqs.append(f'c03.small {oo} {to} {rng.choice([64, 200, 900])} {f.hex()} x')
+        meta.append({'kind': 'small', 'lane': 'valid', 'req': reqs[-1]})
     shapes = zoo_shapes()
     nrand = 1500 if tier == 'quick' else 40000
     for k in range(nrand):
@@ -338,6 +355,23 @@ def run_model(oplines, tag='c03'):
     return C.run_driver(exe, opf, os.path.join(C.BUILD, f'{tag}.model')), ''
 
 
+def opzero_in_prefix(op, r):
+    """the copied prefix contains an instruction goom's decoder reports with Opcode == 0 (flag z)"""
+    try:
+        n = int(r.split('n=')[1].split()[0])
+    except (IndexError, ValueError):
+        return False
+    pos = 0
+    for it in op.split()[6:]:
+        f = it.split(':')
+        if pos >= n:
+            break
+        if 'z' in f[3]:
+            return True
+        pos += int(f[0])
+    return False
+
+
 def classify_unfaithful(op, r):
     """which documented defect an unfaithful copy looks like (only used to label the violation): F2 if a copied instruction
     has bytes after its PC-relative field, else F3 if the copy grew, else None"""
@@ -362,18 +396,20 @@ def classify_unfaithful(op, r):
 
 # ------------------------------------------------------------------ executed layer
 
-EXEC_ZOO = {  # name -> has a stack check (morestack path exists)
-    'S1': False, 'SetX': False, 'CmpX': False, 'S2': True, 'S3': True, 'Leaf': False, 'Load': False, 'Big': True, 'Printer': True,
-    'G': False, 'Fib': True, 'Sq': False, 'Deep': True, 'Mixed': True, 'Tiny': False,
-    'TwinLeafG': False, 'TripleLeafGLoad': False, 'TwinS2S3': True, 'TwinSqCube': False, 'TwinDblSq': True,
-    'RemockSq': False, 'RemockDbl': True, 'RemockSameBuilderCube': False}
+EXEC_ZOO = [  # what is mocked; whether the prologue has a stack check is read from the code by the probe (stack=...)
+    'S1', 'SetX', 'CmpX', 'S2', 'S3', 'Leaf', 'Load', 'Big', 'Big2', 'Printer', 'G', 'Fib', 'Sq', 'Deep', 'Mixed', 'Tiny', 'Mul4',
+    'TwinLeafG', 'TripleLeafGLoad', 'TwinS2S3', 'TwinSqCube', 'TwinDblSq', 'RemockSq', 'RemockDbl', 'RemockSameBuilderCube',
+    'Generic', 'Method', 'MethodTwinTypes', 'RemockRefused']
+EXEC_RECURSIVE = {'Fib', 'Deep'}
 
 
 def build_exec():
     ex = os.path.join(C.HARNESS, 'c03', 'exec')
     extra = dict(C.helper_pkgs())
-    extra['internal/zzverif/c03exec'] = {'exec_test.go': os.path.join(ex, 'exec_test.go')}
-    b, err = C.overlay_build('c03-exec', 'internal/zzverif/c03exec', {}, extra)
+    extra['internal/zzverif/c03exec'] = {'exec_test.go': os.path.join(ex, 'exec_test.go'), 'gen118_test.go': os.path.join(ex, 'gen118_test.go')}
+    extra['internal/zzverif/c03exec/a'] = {'repo.go': os.path.join(ex, 'a', 'repo.go')}
+    extra['internal/zzverif/c03exec/b'] = {'repo.go': os.path.join(ex, 'b', 'repo.go')}
+    b, err = C.overlay_build('c03-exec', 'internal/zzverif/c03exec', {}, extra, ldflags='-s=false')   # by-name lookup needs the symbol table
     if b is None:
         raise C.Infra(f'executed-layer probe does not build against the current tree:\n{err[-3000:]}')
     return b
@@ -394,16 +430,32 @@ def exec_oracle(name, obs):
     if obs is None:
         return 'no observation', None
     if obs.startswith('refused:'):
-        return (None if obs.endswith('clean=true') else ('apply failed but the function no longer behaves as before', None))
+        if ' inner=' in obs and ' inner=ok' not in obs:
+            return f'the function goom selects for a generic instantiation is not the target of the wrapper\'s CALL: {obs}', None
+        if obs.split(' retried-after')[0].endswith('clean=true'):
+            return None
+        if name == 'RemockRefused':
+            return ('a second mock of a still-mocked function was refused (placeholder too small) but the function no longer behaves as '
+                    'before the failed apply: the earlier mock is gone', 'F29-failed-remock-unpatches')
+        return 'apply failed but the function no longer behaves as before / its entry bytes changed', None
     if not obs.startswith('applied'):
         return f'calling the origin placeholder: {obs}', None
     kv = dict(p.split('=', 1) for p in obs.split()[1:] if '=' in p)
+    if kv.get('inner') not in (None, 'ok'):
+        return f'the function patched for a generic instantiation is not the target of the wrapper\'s CALL ({kv["inner"]}): {obs}', None
+    if name == 'Generic' and kv['wrong'] == kv['calls'] and kv['cbzero'] == '0':
+        return ('origin placeholder of a generic function: the callback and the placeholder are entered with the dictionary argument of the '
+                f'shape function in place of the first argument: {obs}', 'F30-generic-origin-abi')
     if kv['wrong'] != '0' or kv['cbzero'] != '0' or kv['restored'] != 'true':
         return f'wrong result / callback not run / not restored: {obs}', None
     if kv['cbtwice'] != '0':
-        if EXEC_ZOO.get(name):
-            return f'callback ran twice for one call at {kv["cbtwice"]} of {kv["calls"]} stack depths (first at depth {kv["first"]}): {obs}', 'F4-morestack-reentry'
-        return f'callback ran more than once: {obs}', None
+        # known finding F4 is exactly: the prologue has a stack check, results are right, and a call re-enters the mock at most once
+        # per mocked call, at the few depths where the stack has to grow at the placeholder call.  Anything beyond that is reported.
+        calls, twice, over = int(kv['calls']), int(kv['cbtwice']), int(kv.get('over', '1'))
+        few = name in EXEC_RECURSIVE or twice <= max(3, calls // 4)
+        if kv.get('stack') == 'true' and over <= 1 + (name in EXEC_RECURSIVE) * 1000 and few:
+            return f'callback ran twice for one call at {twice} of {calls} stack depths (first at depth {kv["first"]}): {obs}', 'F4-morestack-reentry'
+        return f'callback ran more often than once per call beyond the stack-growth re-entry (stack={kv.get("stack")} over={over} at {twice}/{calls} depths): {obs}', None
     return None
 
 
@@ -445,7 +497,7 @@ def run(tier):
 
     stats = {'cases': len(cases), 'evaluations': 0, 'fns': 0, 'zoo': 0, 'tramp': 0, 'small': 0, 'jumpback': {}, 'faithful': 0, 'failed-clean': 0, 'skip': 0,
              'widened': 0, 'results': {}, 'verdict_classes': {}}
-    bad, diffs, jbad = [], [], []
+    bad, diffs, jbad, raw_whole, zbad = [], [], [], [], []
     nontrivial = set()
     for k, (ri, op, res, cols) in enumerate(cases):
         m = meta[ri]
@@ -460,6 +512,8 @@ def run(tier):
             stats['jumpback'][m['kind'] + ':' + jb] = stats['jumpback'].get(m['kind'] + ':' + jb, 0) + 1
             if jb in ('missing', 'jumps-elsewhere', 'prefix-differs', 'written-although-relocation-fails'):
                 jbad.append((k, op, res, jb, m))
+            if jb == 'whole-function-raw-copy':
+                raw_whole.append((k, op, res, jb, m))
             if model is not None:
                 why = tramp_check(op, res, cols, model[k])
                 if why:
@@ -479,10 +533,19 @@ def run(tier):
             if r.startswith('ok'):
                 nontrivial.add(r)
             if v.startswith('unfaithful') and m['lane'] == 'valid':
-                bad.append((k, op, r, v, m))
+                if v.startswith('unfaithful:count') and opzero_in_prefix(op, r):
+                    if not zbad:
+                        out.violation(f'the relocated copy drops the instruction `00 00` ({v}) for {m.get("name", "a function")}',
+                                      {'kind': 'impl-oracle', 'ops': [op], 'observed': r, 'verdict': v}, key='F28-opzero-dropped')
+                    zbad.append(k)
+                else:
+                    bad.append((k, op, r, v, m))
         if model is not None and model[k] != res:
             diffs.append((k, op, res, model[k], 'streams differ'))
 
+    for lane, floor in (('fns', 1000), ('zoo', 500), ('small', 300), ('tramp', 1000)):
+        if stats[lane] < floor:
+            raise C.Infra(f'lane {lane} produced only {stats[lane]} cases (floor {floor}): the probe silently ran (almost) nothing')
     # 1. the property on the implementation
     seen = set()
     for k, op, r, v, m in bad:
@@ -502,6 +565,10 @@ def run(tier):
         out.violation(f'relocated copy is not faithful ({v}) for {m.get("name", "a function of the test binary")}' + (f' [{label}]' if label else ''),
                       {'kind': 'impl-oracle', 'ops': [op], 'observed': r, 'verdict': v, 'looks_like': label,
                        'how': 'python3 check.py C03 --replay <this file>'})
+    for k, op, res, jb, m in raw_whole[:1]:
+        out.violation('fixOriginFuncToTrampoline copied the whole function but wrote the RAW original bytes, not the relocated ones: PC-relative operands '
+                      'of the copy point to the wrong addresses', {'kind': 'jump-back', 'ops': [op], 'reqs': [m.get('req')], 'observed': res, 'verdict': jb,
+                                                                   'how': 'python3 check.py C03 --replay <this file>'}, key='F27-whole-copy-raw')
     for k, op, res, jb, m in jbad[:2]:
         out.violation(f'fixOriginFuncToTrampoline: after the relocated instructions the placeholder holds no jump back to origin+n although '
                       f'only part of the function was moved ({jb})' if jb in ('missing', 'jumps-elsewhere') else f'fixOriginFuncToTrampoline: the placeholder does not start with the relocated instructions (as the real fixRelativeAddr yields them) followed by a jump back ({jb})',
@@ -521,6 +588,10 @@ def run(tier):
             out.violation(f'executed layer, {name}: {why}', {'kind': 'exec', 'exec': [name, maxd, step], 'observed': obs,
                                                             'how': 'python3 check.py C03 --replay <this file>'}, key=key)
     stats['exec'] = {n: o for n, o in xres}
+    napplied = sum(1 for _, o in xres if o and o.startswith('applied'))
+    stats['exec_applied'] = napplied
+    if napplied * 10 < len(xres) * 6:
+        raise C.Infra(f'executed layer: only {napplied} of {len(xres)} zoo functions could be mocked with an origin placeholder (floor 60%)')
     stats['evaluations'] += sum(int(dict(p.split('=', 1) for p in o.split()[1:] if '=' in p).get('calls', 1)) if o and o.startswith('applied') else 1 for _, o in xres)
     # 2. correspondence / proofs
     if not bad and not jbad:
